@@ -72,9 +72,13 @@ def script_for(o, d, N, coords, values, rng, with_gt=True, seglocal=None):
 
 @C.run_scenarios
 def run_task(t):
+    return C.with_alt_path(one_stack, t)
+
+
+def one_stack(t, values, suffix=''):
     o, d, N = t['order'], t['dim'], t['N']
     rng = C.rng_for(t['seed'], 'C13', o, d, N)
-    values = {}
+    values = dict(values or {})
     sD, prD = script_for(o, d, N, list(range(d)), values, rng)
     gD = D.run(build.spline_tu(o, d), sD.text())
     others = {}
@@ -89,7 +93,7 @@ def run_task(t):
     else:
         kw['subst'] = {h: Fraction(x) for h, x in zip(prD.h, t['durs'])}
     so = {h: float(v) for h, v in kw.get('subst', {}).items()}
-    sc = O.Scenario(ID, t['name'], build.spline_tu(o, d), sD, timeout=t['timeout'], enc_kwargs=kw, dag=m, shadow_override=so)
+    sc = O.Scenario(ID, t['name'] + suffix, build.spline_tu(o, d), sD, timeout=t['timeout'], enc_kwargs=kw, dag=m, shadow_override=so)
     sc.positive(prD.h)
     E = sc.enc
     rows = N * C.NC[o]
